@@ -26,7 +26,7 @@ one() {
   rm -rf "$d"
 }
 export -f one; export out props
-ls seeded | grep -v MATRIX | xargs -P "$jobs" -I{} bash -c 'one {}'
+ls -d seeded/*/ | xargs -n1 basename | xargs -P "$jobs" -I{} bash -c 'one {}'
 python3 - "$out" <<'PY'
 import json, sys, os, glob
 out = sys.argv[1]
